@@ -176,6 +176,7 @@ type Broker struct {
 	// Unreliable: the dialer also offers an unreliable transport (second in-memory pipe)
 	Unreliable bool
 	pointHolds []*pointHold
+	handlerHolds []*handlerHold
 	noRead     bool
 }
 
@@ -348,6 +349,11 @@ func (t *cliTr) Write(bs []byte) error {
 		case <-time.After(10 * time.Second):
 		}
 		b.rec.Log("Fault", "c", t.inc.c, "do", "holdWriteReleased", "on", kind, "seq", seq, "gate", r.Gate)
+	}
+	// failWrite: the transport reports a write error while its read direction keeps working (half-broken link)
+	if r := b.findRule(kind, t.inc.c, "failWrite"); r != nil {
+		b.rec.Log("Fault", "c", t.inc.c, "do", "failWrite", "on", kind)
+		return transport.ErrAlreadyClosed
 	}
 	if r := b.findRule(kind, t.inc.c, "cutBefore"); r != nil {
 		b.rec.Log("Fault", "c", t.inc.c, "do", "cutBefore", "on", kind)
@@ -1071,6 +1077,18 @@ func (b *Broker) AnnouncedId(d *BDown, name string) uint32 {
 		return l[len(l)-1]
 	}
 	return 0
+}
+
+// AnnouncedIdAs reports whether the client announced alias a for data id name (open request or ack).
+func (b *Broker) AnnouncedIdAs(d *BDown, name string, a uint32) bool {
+	b.mu.Lock()
+	defer b.mu.Unlock()
+	for _, x := range d.annId[name] {
+		if x == a {
+			return true
+		}
+	}
+	return false
 }
 
 func (b *Broker) Down(sid string) *BDown {
